@@ -615,3 +615,35 @@ def attribute(facts, parent, fn):
         p = parent.get(p)
         seen += 1
     return fn
+
+
+# ---------------------------------------------------------------------------------------
+# cross-engine agreement: every panicking construct that clippy's restriction lints see lexically inside a body of the cone must
+# have been found as a panic source by the MIR engine at the same place (thorough tier; a disagreement is an engine fault)
+
+def clippy_agreement(ctx, rule, G, parent, regions, srcs, sites):
+    regions = regions or {}
+    by_file = collections.defaultdict(list)
+    for s in srcs:
+        fn, ln = s.loc.rsplit(':', 1)
+        by_file[fn].append(int(ln))
+    spans = []
+    for p in parent:
+        sp = G.mir[p]['span']
+        h = G.facts.hir.get(p) or getattr(G.facts, 'hir_all', {}).get(p)
+        if h is not None and h['body'].get('sp'):
+            sp = h['body']['sp']          # the whole body (the MIR record carries the header span only)
+        reg = regions.get(p)
+        spans.append((sp[0], reg[1] if reg else sp[1], reg[3] if reg else sp[3], p))
+    inside = 0
+    missing = []
+    for fn, l1, l2, lint in sites:
+        owners = [p for f2, a, b, p in spans if f2 == fn and a <= l1 <= b]
+        if not owners:
+            continue
+        inside += 1
+        if not any(l1 <= ln <= l2 for ln in by_file.get(fn, [])):
+            missing.append('%s:%d %s' % (fn, l1, lint))
+    ctx.add(rule, 'clippy restriction lints vs MIR panic sources', '', not missing,
+            'constructs that clippy reports inside the cone\'s bodies but the MIR engine did not list as panic sources (engine fault): %s' % missing[:6], nontrivial=False)
+    return inside
